@@ -3,7 +3,7 @@ import json
 import os
 import subprocess
 
-TASK_FIELDS = {"Task.name": "str", "Task.tags": "list[str]", "Task.operation": "obj[Operation]", "Operation.type": "str", "Task.nested": "bool", "Task.meta_data": "any", "Task.params": "any",
+TASK_FIELDS = {"Task.name": "str", "Task.tags": "list[str]", "Task.operation": "obj[Operation]", "Operation.type": "str", "Operation.name": "str", "Task.nested": "bool", "Task.meta_data": "any", "Task.params": "any",
                "Task.warmup_iterations": "any", "Task.iterations": "any", "Task.warmup_time_period": "any", "Task.time_period": "any", "Task.ramp_up_time_period": "any",
                "Task.clients": "any", "Task.completes_parent": "any", "Task.any_completes_parent": "any", "Task.schedule": "any"}
 
